@@ -6,7 +6,7 @@ CONSTANTS
   MaxThread = 2
   MaxSteps = 10
   Ideal = TRUE
-  ResumeFailed = FALSE
+  ResumeFailed = TRUE
   Emit = TRUE
 INVARIANTS EmitWalk FifoExactlyOnce ForceOnce ForceErrors NoHang
 CHECK_DEADLOCK FALSE
